@@ -360,6 +360,9 @@ def main(tier, seed):
     )
     rep.assumptions = ["the meaning of a helper's column is the label assigned in fv/drivers/c16.py from the statement (binary = indicator, offset(v) = v, prop = successes & trials, I(e) = e)"]
     helpers_mc(rep, seed, 3, 2 if tier == "quick" else 3)
+    from fv import callkinds
+
+    callkinds.run(rep, "C16")   # CallKinds.tla: what becomes of the value a call returns
     n = 500 if tier == "quick" else 12000
     results = common.pool_map(_events, [(i, seed) for i in range(n)])
     events, texts = [], {}
